@@ -46,10 +46,15 @@ CFGS = [{}, {'speed': 2.5}, {'speed': 0}, {'speed': 5.0, 'label': ''}, {'label':
         {'nowrite': 1.5}, {'speed': {'value': 1.0, 'max': 2}}]
 
 
+def _native_views():
+    C.WROTE = lambda log, n: any(e[0] == n for e in log)
+
+
 def gen_write_init(tier, rng):
     """module with 5 writable + 1 write-less parameters x configurations (values equal to the default, boundary values, refused values)"""
     from bounded import nodelib
     import types
+    _native_views()
     for cfg in CFGS:
         writes = []
         Dev = _cls(writes)
